@@ -4,6 +4,7 @@ import LitexProofs.Stream.Pipe
 import LitexProofs.Stream.Route
 import LitexProofs.Stream.Gearbox
 import LitexModel.Stream.NumG
+import LitexProofs.Stream.Layout
 /-
   C03 — Stream elements deliver each token exactly once, in order, rightly transformed.
 
@@ -211,6 +212,21 @@ theorem gearbox_no_deadlock (L i o : Nat) (hio : i + o ≤ L) (z : α) (s : GbSt
   simp only [gearbox, Elem.out, decide_eq_true_eq]
   omega
 
+/-- The gearbox as constructed (`L = io_lcm(i, o)`), any widths `i, o ≥ 1`: delivered bits are a prefix of the
+    accepted bits, at most `L - 1` bits are in flight, and it never blocks both sides. -/
+theorem gearbox_token_rel (i o : Nat) (hi : 0 < i) (ho : 0 < o) (z : α) (ins : List (In (List α))) :
+    let e := gearbox (ioLcm i o) i o z
+    bitsOut (e.delivered e.init ins) <+: bitsIn i z (e.accepted e.init ins) ∧
+    (bitsIn i z (e.accepted e.init ins)).length < (bitsOut (e.delivered e.init ins)).length + ioLcm i o ∧
+    ∀ s x, (e.out s x).ready = true ∨ (e.out s x).valid = true := by
+  obtain ⟨h1, h2, h3, h4⟩ := ioLcm_spec i o hi ho
+  have hL : 0 < ioLcm i o := by omega
+  have hrel := gearbox_bits_rel (ioLcm i o) i o hi ho h1 h2 hL z ins
+  refine ⟨gearbox_prefix (ioLcm i o) i o hi ho h1 h2 hL z ins, ?_, fun s x => gearbox_no_deadlock _ i o (by omega) z s x⟩
+  simp only at hrel ⊢
+  rw [hrel.1, List.length_append, hrel.2.1]
+  omega
+
 /-! ### Routing: Multiplexer, Demultiplexer, Gate -/
 
 /-- Multiplexer(n), every input sequence (selector changes included): what the source delivers is, cycle by cycle,
@@ -319,6 +335,47 @@ theorem bufferizedUp_token_rel (r : Nat) (hr : 0 < r) (ins : List (In (Nat × Na
   obtain ⟨m1, h1, m2, h2, h3⟩ := h
   exact ⟨m1, m2, h1, h2.1, h3⟩
 
+/-! ### Shifter (PipelinedActor, latency 2) -/
+
+/-- Shifter, every schedule (and every `shift` value, changing freely): the accepted tokens (data truncated to
+    `dw` bits) = `dpre` ++ the at most two tokens in the pipeline registers, where `dpre` corresponds one-to-one and
+    in order to the delivered tokens: same first/last, data = the `dw`-bit window at `shift` over the token and
+    whatever followed it on the sink (`ShiftOf`). -/
+theorem shifter_token_rel (dw : Nat) (ins : List (In (Nat × Nat))) :
+    let e := shifter dw
+    ∃ dpre, (e.accepted e.init ins).map (shNorm dw) = dpre ++ (e.runFrom e.init ins).inflight ∧
+      shList dw dpre (e.delivered e.init ins) ∧ dpre.length = (e.delivered e.init ins).length ∧
+      (e.runFrom e.init ins).inflight.length ≤ 2 := by
+  obtain ⟨dpre, h1, h2⟩ := rel_run_init (shifter dw) (shRel dw)
+    ⟨[], by simp [shifter, ShState.inflight], trivial⟩ (shifter_step dw) ins
+  refine ⟨dpre, h1, h2, shList_length dw _ _ h2, ?_⟩
+  simp only [ShState.inflight, List.length_append]
+  split <;> split <;> simp
+
+/-- The window: with `shift = 0` it is the token itself; for any `shift < dw` its low `dw - shift` bits are bits
+    `[shift, dw)` of the token. -/
+theorem shifter_window (dw lo hi sh : Nat) (hsh : sh < dw) (hlo : lo < 2 ^ dw) :
+    shOut dw lo hi 0 = lo ∧ shOut dw lo hi sh % 2 ^ (dw - sh) = lo / 2 ^ sh :=
+  ⟨shOut_zero dw lo hi (by omega) hlo, shOut_low dw lo hi sh hsh hlo⟩
+
+/-! ### Layout layer (bit placement of the converters, as used by the numeric driver) -/
+
+/-- In the word of an up-converter the bits of physical lane `n = reverse ? r-1-i : i` are sub-word `i`. -/
+theorem upconv_layout (nb : Nat) (rev : Bool) (lanes : List Nat) (i : Nat) (h : i < lanes.length) :
+    slice ((if rev then lanes.length - 1 - i else i) * nb) nb (packLanes nb (phys rev lanes)) =
+      lanes.getD i 0 % 2 ^ nb :=
+  Litex.Stream.upconv_layout nb rev lanes i h
+
+/-- A down-converter's lane extraction inverts an up-converter's packing. -/
+theorem downconv_layout_roundtrip (nb : Nat) (lanes : List Nat) :
+    unpackLanes nb lanes.length (packLanes nb lanes) = lanes.map (· % 2 ^ nb) :=
+  unpack_pack nb lanes
+
+/-- `Cast` without reversal is the identity on the raw bits, whatever the two layouts' field widths. -/
+theorem cast_identity (wsFrom wsTo : List Nat) (hw : sumW wsFrom = sumW wsTo) (x : Nat) :
+    castFn false false wsFrom wsTo x = x % 2 ^ sumW wsFrom :=
+  castFn_id wsFrom wsTo hw x
+
 /-! ### Non-vacuity -/
 
 /-- Up-converter, ratio 3: four sub-words, the second with an early `last`; consumer stalls once.  Two words are
@@ -358,5 +415,53 @@ example :
     let e := gate (α := Nat) true 0
     let ins : List (In (Nat × Bool)) := [⟨true, ⟨(1, true), false, false⟩, true⟩, ⟨true, ⟨(2, false), false, false⟩, true⟩]
     (e.accepted () ins).length = 2 ∧ e.delivered () ins = [⟨1, false, false⟩] := by decide
+
+/-- Shifter, dw = 4, shift = 0: two tokens in, the first comes out unchanged, the second is still inside. -/
+example :
+    let e := shifter 4
+    let ins : List (In (Nat × Nat)) :=
+      [⟨true, ⟨(5, 0), true, false⟩, true⟩, ⟨true, ⟨(9, 0), false, true⟩, true⟩, ⟨false, ⟨(0, 0), false, false⟩, true⟩]
+    e.delivered e.init ins = [⟨5, true, false⟩] ∧ (e.runFrom e.init ins).inflight = [⟨9, false, true⟩] := by decide
+
+/-- SyncFIFO(2, buffered): three tokens offered back to back while the consumer stalls, then one is taken. -/
+example :
+    let e := syncFifoBuffered (α := Nat) 2 ⟨0, false, false⟩
+    let ins : List (In Nat) :=
+      [⟨true, ⟨1, true, false⟩, false⟩, ⟨true, ⟨2, false, false⟩, false⟩, ⟨true, ⟨3, false, true⟩, false⟩,
+       ⟨false, ⟨7, true, true⟩, true⟩]
+    e.accepted e.init ins = [⟨1, true, false⟩, ⟨2, false, false⟩, ⟨3, false, true⟩] ∧
+    e.delivered e.init ins = [⟨1, true, false⟩] ∧ (e.runFrom e.init ins).inflight.length = 2 := by decide
+
+/-- Delay(2): a token needs two cycles to appear; two tokens accepted, one delivered. -/
+example :
+    let e := delay (α := Nat) ⟨0, false, false⟩ 2
+    let ins : List (In Nat) :=
+      [⟨true, ⟨1, true, false⟩, true⟩, ⟨true, ⟨2, false, true⟩, true⟩, ⟨false, ⟨0, false, false⟩, true⟩]
+    e.accepted e.init ins = [⟨1, true, false⟩, ⟨2, false, true⟩] ∧ e.delivered e.init ins = [⟨1, true, false⟩] := by
+  decide
+
+/-- StrideConverter (up, ratio 2) with params: the word stalled at the source keeps the param it was accepted
+    with although the producer already offers the next packet (witness of fixed finding 3f0170f). -/
+example :
+    let e := strideUp (α := Nat) (π := Nat) 2 0 0
+    let ins : List (In (Nat × Nat)) :=
+      [⟨true, ⟨(1, 1), true, false⟩, false⟩, ⟨true, ⟨(0, 1), false, true⟩, false⟩,
+       ⟨true, ⟨(1, 2), true, false⟩, false⟩, ⟨true, ⟨(1, 2), true, false⟩, true⟩]
+    (e.delivered e.init ins).map upView = [⟨([1, 0], 1), true, true⟩] := by decide
+
+/-- Multiplexer(2): sink 1 is selected; sink 0 offers a token too but is not accepted. -/
+example :
+    let i : MuxIn Nat := ⟨1, [(true, ⟨7, false, false⟩), (true, ⟨8, true, true⟩)], true⟩
+    muxDel 2 zTok i = [⟨8, true, true⟩] ∧ muxAccAt 2 zTok 0 i = [] ∧ muxAccAt 2 zTok 1 i = [⟨8, true, true⟩] := by
+  decide
+
+/-- Demultiplexer(3) with `sel = 3` (no such source): nothing is accepted, nothing delivered. -/
+example :
+    let i : DemuxIn Nat := ⟨3, true, ⟨7, false, false⟩, [true, true, true]⟩
+    demuxAcc 3 zTok i = [] ∧ demuxDelAt 3 zTok 2 i = [] := by decide
+
+/-- Cast with `reverse_from`: fields (1 bit, 2 bits) → (2 bits, 1 bit), the first source field gets the second
+    sink field. -/
+example : castFn true false [1, 2] [2, 1] 0b101 = 0b110 := by decide
 
 end Litex.C03
